@@ -14,7 +14,8 @@ structure DSt where
   fowner : List (String × String) := []
   rkeys : List String := []
   fkeys : List String := []
-  orig : List (String × Content) := []   -- content first declared for a key ("r:"/"f:" prefixed)
+  orig : List (String × Content) := []   -- current content of a key ("r:"/"f:" prefixed): first declared, then as last written
+  up : Option (List String) := none       -- nodes started in the current epoch (none: all)
   st : St String String :=
     { recs := fun _ _ => none, files := fun _ _ => none, rconf := fun _ _ => false,
       fph := fun _ _ => .idle, failed := fun _ => false }
@@ -37,7 +38,27 @@ def setAssoc (l : List (String × String)) (k v : String) : List (String × Stri
 def addKey (l : List String) (k : String) : List String := if l.contains k then l else l ++ [k]
 
 def DSt.cfg (d : DSt) : Cfg String String :=
-  { owner := lookupD d.rowner, fowner := lookupD d.fowner, cs := d.cs, trunc0 := d.trunc, sum := dsum }
+  { owner := lookupD d.rowner, fowner := lookupD d.fowner, cs := d.cs, trunc0 := d.trunc, sum := dsum,
+    up := fun n => match d.up with | none => true | some l => l.contains n }
+
+def DSt.world (d : DSt) : World String String :=
+  { cfg := d.cfg, st := d.st, ro := fun k => d.orig.lookup ("r:" ++ k), fo := fun k => d.orig.lookup ("f:" ++ k) }
+
+def setOrig (l : List (String × Content)) (k : String) (c : Option Content) : List (String × Content) :=
+  let l := l.filter (fun p => p.1 != k)
+  match c with
+  | some c => (k, c) :: l
+  | none => l
+
+def content?? (s : String) : Option (Option Content) :=
+  if s == "none" then some none else (content? s).map some
+
+def sortKeys (l : List String) : List String := (l.toArray.qsort (· < ·)).toList
+
+/-- the order in which `filepath.Walk` visits the shard directories `user/collection/shard`:
+lexical per path component (a user id that is a prefix of another comes first, whatever follows) -/
+def walkKey (k : String) : String := k.map fun c => if c == '/' then Char.ofNat 1 else c
+def walkOrder (l : List String) : List String := (l.toArray.qsort (fun a b => walkKey a < walkKey b)).toList
 
 def parseFault (toks : List String) : Option (Fault String String) :=
   toks.foldlM (fun (f : Fault String String) t =>
@@ -62,8 +83,8 @@ def addOrig (l : List (String × Content)) (k : String) (c : Content) : List (St
   if (l.lookup k).isSome then l else (k, c) :: l
 
 def dumpNode (d : DSt) (n : String) : String :=
-  let rs := d.rkeys.filterMap fun k => (d.st.recs n k).map (showCopy d "r:" k)
-  let fs := d.fkeys.filterMap fun k => (d.st.files n k).map (showCopy d "f:" k)
+  let rs := (sortKeys d.rkeys).filterMap fun k => (d.st.recs n k).map (showCopy d "r:" k)
+  let fs := (sortKeys d.fkeys).filterMap fun k => (d.st.files n k).map (showCopy d "f:" k)
   s!"{n}[r " ++ " ".intercalate rs ++ " | f " ++ " ".intercalate fs ++ "]"
 
 def stepLine (d : DSt) (line : String) : DSt × String :=
@@ -87,7 +108,7 @@ def stepLine (d : DSt) (line : String) : DSt × String :=
   | ["fowner", k, n] => ({ d with fowner := setAssoc d.fowner k n }, "ok")
   | "sync" :: n :: ftoks => match parseFault ftoks with
       | some flt =>
-          let st := syncNode d.cfg flt d.nodes d.rkeys d.fkeys n d.st
+          let st := syncNode d.cfg flt d.nodes d.rkeys (walkOrder d.fkeys) n d.st
           ({ d with st := st }, if st.failed n then "fail" else "ok")
       | none => bad
   | ["rsendlost", src, dst] =>
@@ -109,6 +130,28 @@ def stepLine (d : DSt) (line : String) : DSt × String :=
           (d, "|".intercalate ((messages cs (List.replicate len 0)).map fun p => s!"{p.1}:{p.2.length}"))
       | _, _ => bad
   | ["dump"] => (d, " ".intercalate (d.nodes.map (dumpNode d)))
+  | ["epoch", ups] =>
+      -- the server list changes: the `rowner` / `fowner` lines before this one gave the new routing
+      let u := (ups.splitOn ",").filter (· ≠ "")
+      let w := d.world
+      let safe := safeB w w.cfg.owner w.cfg.fowner (fun n => u.contains n) d.nodes d.rkeys d.fkeys
+      ({ d with up := some u, st := clearAll d.st }, if safe then "safe" else "notsafe")
+  | ["wrec", k, c] => match content?? c with
+      | some v =>
+          let w := d.world
+          let q := quietRB w d.nodes k
+          let w' := wstep (.wrec k v) w
+          ({ d with rkeys := addKey d.rkeys k, orig := setOrig d.orig ("r:" ++ k) v, st := w'.st },
+           if q then "ok" else "not-quiet")
+      | none => bad
+  | ["wfile", k, c] => match content?? c with
+      | some v =>
+          let w := d.world
+          let q := quietFB w d.nodes k
+          let w' := wstep (.wfile k v) w
+          ({ d with fkeys := addKey d.fkeys k, orig := setOrig d.orig ("f:" ++ k) v, st := w'.st },
+           if q then "ok" else "not-quiet")
+      | none => bad
   | _ => bad
 
 end Sema.C14
